@@ -13,7 +13,69 @@ ASSUMPTIONS = sc.STREAM_ASSUMPTIONS
 PROFILES = ["bulk","bulk","close","latency","wrap","reuse","many","tunnel"]
 
 
+def tunnel_reader_check(ctx):
+    """the byte stream the multiplexer reads comes from the file objects the real ssh.connect returns; the main loop
+    only wakes the multiplexer when select() reports that object readable, so no byte may be held back in a private
+    read-ahead buffer.  Real ssh.connect (only Popen replaced), real socket pair.  Implementation-only."""
+    import select
+    import socket
+    import types
+    import sshuttle.ssh as ssh
+    keep = []
+
+    class FakePopen(object):
+        pid = 4242
+
+        def __init__(self, argv, stdin=None, stdout=None, **kw):
+            keep.append(os.dup(stdin))          # the "ssh" end of the pair stays open and is ours to write to
+
+        def poll(self):
+            return None
+
+    saved = ssh.ssubprocess
+    ssh.ssubprocess = types.SimpleNamespace(Popen=FakePopen, PIPE=getattr(saved, "PIPE", -1))
+    try:
+        for total, first in ((5000, 100), (300, 1), (8192, 12), (20000, 4096)):
+            p, rfile, wfile = ssh.connect(None, "remote.example", None, None, False, None,
+                                          dict(latency_control=True, latency_buffer_size=32768, auto_hosts=False,
+                                               to_nameserver=None, auto_nets=False))
+            peer = socket.socket(fileno=keep.pop())
+            try:
+                peer.setblocking(False)
+                try:
+                    while peer.recv(65536):        # drain the upload the client wrote
+                        pass
+                except (BlockingIOError, OSError):
+                    pass
+                peer.setblocking(True)
+                peer.sendall((bytes(range(256)) * (total // 256 + 1))[:total])
+                got = rfile.read(first)
+                unread = total - len(got or b"")
+                r, _, _ = select.select([rfile], [], [], 0.2)
+                ctx.case(("tunnel-reader", total, first), nontrivial=True)
+                ctx.count("tunnel_reader_cases")
+                if unread > 0 and not r:
+                    ctx.violation("bytes of the tunnel stream are held where select() cannot see them: the object ssh.connect "
+                                  "returned read ahead, the multiplexer would not be woken for them",
+                                  {"tunnel_reader": {"bytes_sent_by_the_peer": total, "bytes_the_client_asked_for": first,
+                                                     "bytes_unread": unread, "select_reports_readable": False}})
+            finally:
+                for f in (rfile, wfile, peer):
+                    try:
+                        f.close()
+                    except Exception:
+                        pass
+    finally:
+        ssh.ssubprocess = saved
+        for fd in keep:
+            try:
+                os.close(fd)
+            except OSError:
+                pass
+
+
 def correspondence(ctx):
+    tunnel_reader_check(ctx)
     sc.stream_check(ctx, PROP, PROFILES, 120, 2500)
 
 
